@@ -40,6 +40,31 @@ type fakeRW struct {
 	// a failing write
 	deadlineErr bool
 	dlCalls     int
+	// flushErr: flushing fails (the client reset the connection while it was being registered): the flush that follows
+	// the headers returns at once, a later one (after a write) parks like a failing write
+	flushErr bool
+	flCalls  int
+}
+
+// FlushError is what http.ResponseController.Flush calls when the writer has it.
+func (w *fakeRW) FlushError() error {
+	w.mu.Lock()
+	defer w.mu.Unlock()
+	if w.flushErr {
+		w.flCalls++
+		if w.flCalls > 1 && w.holdFail && !w.failed {
+			w.failed = true
+			ch := make(chan struct{})
+			w.failCh = ch
+			w.mu.Unlock()
+			<-ch
+			w.mu.Lock()
+		}
+
+		return errConnClosed
+	}
+
+	return nil
 }
 
 // failParked reports whether a failing write is parked, waiting for release.
